@@ -89,8 +89,14 @@ class Check:
 
     def selftest(self):
         """oracle self-test run once in the parent before the workload; returns dict for evidence;
-        raise Inconclusive when the oracle cannot be trusted"""
-        return None
+        raise Inconclusive when the oracle cannot be trusted. Default: standards' vectors for every
+        model primitive, then enable the accelerators that agree with the pure implementations."""
+        from noiseref import selftest
+
+        r = selftest.run_all(vectors=False)
+        if not r["ok"]:
+            raise Inconclusive("oracle self-test failed: %r" % (r,))
+        return r
 
     def extra_runs(self, binary):
         """sanitizer / tool runs beyond the sharded workload; returns (stats, violations, notes)"""
